@@ -429,7 +429,7 @@ def plan_growth(pid, tier, seed):
                          "converted value and is given only for layout pairs where no source value can overflow",
                     assumptions=["not one of the 18 listed properties", "the half crate's from_bits / to_bits are trusted"])
     if pid == "G06":
-        fns = "sqrt,log2,ln,exp,pow,powi"
+        fns = "sqrt,log2,ln,exp,pow,powi,sin,cos,tan"
         gens = [dict(name="af_math", profile="unchecked", bin="math", dom="big", per_shard=300,
                      args=["--topic", fns, "--tier", tier, "--seed", str(seed)]),
                 dict(name="af_sweep", profile="unchecked", bin="mathsweep", dom="big", per_shard=300,
